@@ -120,7 +120,7 @@ func (g *G) Expr(t string, d int) string {
 		case 5:
 			return fmt.Sprintf("(%s %s %s)", g.Expr("string", d-1), g.pick("==", "!=", "<", ">", "contains", "startsWith", "endsWith"), g.Expr("string", d-1))
 		case 6:
-			return fmt.Sprintf("(%s %s %s)", g.Expr("int", d-1), g.pick("in", "not in"), g.Expr(g.pick("ints", "anys"), d-1))
+			return fmt.Sprintf("(%s %s %s)", g.Expr(g.pick("int", "int", "float", "any"), d-1), g.pick("in", "not in"), g.Expr(g.pick("ints", "anys", "ints"), d-1))
 		case 7:
 			return fmt.Sprintf("(%s %s %s..%s)", g.Expr("int", d-1), g.pick("in", "not in"), g.leaf("int"), g.leaf("int"))
 		case 8:
@@ -256,7 +256,7 @@ func (g *G) leaf(t string) string {
 		}
 		return g.pick("0", "1", "2", "3", "7", "10", "I", "J", "I", "J", "Sub.X", "100", "0x1F", "1_000")
 	case "float":
-		return g.pick("0.5", "1.5", "2.0", "F", "F", "1e2", ".25")
+		return g.pick("0.5", "1.5", "2.0", "F", "F", "1e2", ".25", "2.5", "3.0", "(I + 0.5)")
 	case "string":
 		if g.depth > 0 && g.elem[len(g.elem)-1] == "string" && g.r.Intn(3) == 0 {
 			return "#"
